@@ -353,7 +353,9 @@ func vfCheck[C any](t *testing.T, prop string, gen func(*rapid.T) C, run func(C,
 			res.FailCase = json.RawMessage(cj)
 			mu.Unlock()
 			write()
-			rt.Fatalf("%s", v.Msg)
+			// a constant message: rapid aborts shrinking when two runs of the same input fail with
+			// different texts, and violation texts may legitimately differ (map order in the rendering)
+			rt.Fatalf("property %s violated (the violation text is in the result file)", prop)
 		}
 	})
 	res.Completed = true
